@@ -19,6 +19,7 @@ import json
 import os
 import random
 import subprocess
+import time
 
 import vcheck as vc
 
@@ -121,30 +122,38 @@ def rep_choices(v):
 
 
 def arith_cases(r, quick, scale):
+    """One case per (operator, a, b); its runs are (query mode, representation of a, of b)."""
     fixed, rnd = boundary_set(r, 60 if quick else 400)
     pool = fixed + rnd
     cases = []
 
+    def pick(combos):
+        # thorough: every representation pair; quick: (int, int) / the first one plus three random others
+        if not quick or len(combos) <= 4:
+            return combos
+        return [combos[0]] + r.sample(combos[1:], 3)
+
     def add_case(kind, op, a, b=None):
         ra = rep_choices(a)
+        c = {"kind": kind, "op": op, "a": str(a)}
         if kind == "un":
-            cases.append({"kind": kind, "op": op, "mode": "var", "a": str(a), "reps": [[x] for x in ra]})
-            cases.append({"kind": kind, "op": op, "mode": "input", "a": str(a), "reps": [[r.choice(ra)]]})
+            runs = [{"mode": "var", "la": x} for x in ra]
+            runs.append({"mode": "input", "la": r.choice(ra)})
             if op != "plus" or a >= 0:
-                cases.append({"kind": kind, "op": op, "mode": "lit", "a": str(a)})
-            return
-        rb = rep_choices(b)
-        cases.append({"kind": kind, "op": op, "mode": "var", "a": str(a), "b": str(b),
-                      "reps": [[x, y] for x in ra for y in rb]})
-        cases.append({"kind": kind, "op": op, "mode": "input", "a": str(a), "b": str(b),
-                      "reps": [[r.choice(ra), r.choice(rb)]]})
-        cases.append({"kind": kind, "op": op, "mode": "lit", "a": str(a), "b": str(b)})
-        if op == "add":
-            cases.append({"kind": kind, "op": op, "mode": "addfn", "a": str(a), "b": str(b),
-                          "reps": [[r.choice(ra), r.choice(rb)]]})
+                runs.append({"mode": "lit", "la": "lit"})
+        else:
+            rb = rep_choices(b)
+            c["b"] = str(b)
+            runs = [{"mode": "var", "la": x, "lb": y} for x, y in pick([(x, y) for x in ra for y in rb])]
+            runs.append({"mode": "input", "la": r.choice(ra), "lb": r.choice(rb)})
+            runs.append({"mode": "lit", "la": "lit", "lb": "lit"})
+            if op == "add":
+                runs.append({"mode": "addfn", "la": r.choice(ra), "lb": r.choice(rb)})
+        c["runs"] = runs
+        cases.append(c)
 
-    nbin = int(260 * scale)
-    nrel = int(70 * scale)
+    nbin = int(300 * scale)
+    nrel = int(80 * scale)
     for op in BIN_OPS:
         pairs = [(r.choice(pool), r.choice(pool)) for _ in range(nbin)]
         pairs += structured_pairs(r, op, nbin, pool)
@@ -214,11 +223,10 @@ def res_show(res):
 
 
 def case_of(rec, run):
-    c = {"kind": rec["kind"], "op": rec["op"], "mode": rec["mode"], "a": zshow(rec["a"])}
+    c = {"kind": rec["kind"], "op": rec["op"], "a": zshow(rec["a"])}
     if "b" in rec:
         c["b"] = zshow(rec["b"])
-    if rec["mode"] != "lit":
-        c["reps"] = [[run["la"]] + ([run["lb"]] if "lb" in run else [])]
+    c["runs"] = [{k: run[k] for k in ("mode", "la", "lb") if k in run}]
     return c
 
 
@@ -254,7 +262,7 @@ def check_arith(rep, work, vh, cases, tag="a", timeout=900):
                 elif rv["mrep"] in ("int", "big"):
                     bump("path_" + rv["mrep"])
                 if rec["id"] % 997 == 0 and run is rec["runs"][0]:
-                    rep.sample({"query": rec["src"], "a": zshow(rec["a"]), "b": zshow(rec.get("b")),
+                    rep.sample({"query": run["src"], "a": zshow(rec["a"]), "b": zshow(rec.get("b")),
                                 "reps": [run["la"], run.get("lb")], "real": res_show(run["res"]), "verdict": "agree"}, limit=6)
             elif rv["v"] == "specerr":
                 rep.count("out_of_model")
@@ -275,11 +283,11 @@ def check_arith(rep, work, vh, cases, tag="a", timeout=900):
                               {"family": "arith", "case": c, "actual": [run["res"], run2["res"]]})
                 continue
             if rv["v"] == "panic":
-                what = "panic evaluating %s on %s: %s" % (rec["src"], json.dumps(c), run["res"].get("msg"))
+                what = "panic evaluating %s on %s: %s" % (run["src"], json.dumps(c), run["res"].get("msg"))
             else:
                 what = "%s with a=%s b=%s (%s) gives %s; the exact result is different (%s)" % (
-                    rec["src"], c["a"], c.get("b"), "/".join(c.get("reps", [["literal"]])[0]), res_show(run["res"]), rv.get("ek"))
-            rep.violation(what, {"family": "arith", "case": c, "src": rec["src"], "actual": run["res"]})
+                    run["src"], c["a"], c.get("b"), "/".join(x for x in (run["la"], run.get("lb")) if x), res_show(run["res"]), rv.get("ek"))
+            rep.violation(what, {"family": "arith", "case": c, "src": run["src"], "actual": run["res"]})
     return counters
 
 
@@ -614,10 +622,15 @@ def run(tier, seed, replay):
         quick = tier == "quick"
         with cf.ThreadPoolExecutor(max_workers=1) as ex:
             mc = ex.submit(model_check, work, quick)
-            cases = arith_cases(r, quick, 1.0 if quick else 24.0)
+            t0 = time.time()
+            cases = arith_cases(r, quick, 1.0 if quick else 16.0)
             counters = check_arith(rep, work, vh, cases, timeout=600 if quick else 3000)
+            t1 = time.time()
             lit_counters = check_literals(rep, work, vh, gojq, seed, quick)
+            t2 = time.time()
             rep.cov["model_checking"] = mc.result()
+            rep.cov["phase_wall_s"] = {"operators": round(t1 - t0, 1), "literals": round(t2 - t1, 1),
+                                       "waiting_for_model_checking": round(time.time() - t2, 1)}
             for m in rep.cov["model_checking"].values():
                 rep.add_tlc({"states": m["distinct"], "generated": m["generated"]})
         rep.cov["arith_verdicts"] = counters
